@@ -102,6 +102,7 @@ pub fn argv() -> Option<Vec<String>> {
 
 pub fn stdout_print(args: fmt::Arguments) {
     let text = args.to_string();
+    let _held = HeldStdout::acquire();
     // whatever an earlier unterminated write left in the line buffer goes out first
     if let Err(e) = line_buffer::flush() {
         panic!("failed printing to stdout: {e}");
@@ -448,6 +449,23 @@ mod line_buffer {
     }
 }
 
+/// std holds its (re-entrant) stdout lock for the whole of one `write`/`flush`/`print!` call.
+/// The stand-in does the same with the simulated lock, after a yield point of its own, so that
+/// another thread can get in between two calls but never into the middle of one.
+struct HeldStdout;
+impl HeldStdout {
+    fn acquire() -> HeldStdout {
+        world().yield_point("stdout_call");
+        world().stdout_lock();
+        HeldStdout
+    }
+}
+impl Drop for HeldStdout {
+    fn drop(&mut self) {
+        world().stdout_unlock();
+    }
+}
+
 /// To be called by the harness after the program's `main` has returned.
 pub fn flush_stdout_at_exit() {
     line_buffer::flush_at_exit()
@@ -455,19 +473,21 @@ pub fn flush_stdout_at_exit() {
 
 impl Write for Stdout {
     fn write(&mut self, buf: &[u8]) -> io::Result<usize> {
-        // like std: one write on the unlocked handle takes the lock for just that write; the
-        // world makes the write atomic and makes it wait while another thread holds the lock
+        let _held = HeldStdout::acquire();
         line_buffer::write(buf)
     }
     fn flush(&mut self) -> io::Result<()> {
+        let _held = HeldStdout::acquire();
         line_buffer::flush()
     }
 }
 impl Write for StdoutLock {
     fn write(&mut self, buf: &[u8]) -> io::Result<usize> {
+        let _held = HeldStdout::acquire();
         line_buffer::write(buf)
     }
     fn flush(&mut self) -> io::Result<()> {
+        let _held = HeldStdout::acquire();
         line_buffer::flush()
     }
 }
